@@ -59,9 +59,10 @@ Definition show_unit (E : env) (u : unit) : string :=
 Definition show_qc (q : Qc) : string := show_Z (Qnum q) ++ "#" ++ show_N (Npos (Qden q)).
 
 Definition qc_abs (x : Qc) : Qc := if Qc_ltb x 0%Qc then (- x)%Qc else x.
-(* |model - impl| <= tol * |model| *)
+(* |model - impl| <= tol   (absolute tolerance, computed per case by the driver
+   from a stated relative tolerance and the magnitude of the operands) *)
 Definition close (tol m i : Qc) : bool :=
-  negb (Qc_ltb (tol * qc_abs m)%Qc (qc_abs (m - i)%Qc)).
+  negb (Qc_ltb tol (qc_abs (m - i)%Qc)).
 
 Definition show_err (e : qerror) : string :=
   match e with
@@ -80,6 +81,11 @@ Definition show_q (E : env) (tol : Qc) (impl : Qc) (q : quantity (T := Qc)) : st
               | None => "-"
               | Some (tv, tu) => show_qc tv ++ "=" ++ show_unit E tu
               end.
+
+(* value and unit only *)
+Definition show_qvu (E : env) (tol : Qc) (impl : Qc) (q : quantity (T := Qc)) : string :=
+  (if close tol (q_val q) impl then "ok" else "val=" ++ show_qc (q_val q))
+    ++ ":" ++ show_unit E (q_unit q).
 
 Definition show_qres (E : env) (tol impl : Qc) (r : res_t (quantity (T := Qc))) : string :=
   match r with Ok q => show_q E tol impl q | Err e => show_err e end.
@@ -119,6 +125,12 @@ Section Run.
 
   Definition r_eval (tol impl : Q) (e : expr) : string :=
     guard (expr_units e) (show_qres E (Q2Qc tol) (Q2Qc impl) (eval QcN tbl res keys e)).
+  Definition r_evalu (tol impl : Q) (e : expr) : string :=
+    guard (expr_units e)
+          (match eval QcN tbl res keys e with
+           | Ok q => show_qvu E (Q2Qc tol) (Q2Qc impl) q
+           | Err er => show_err er
+           end).
   Definition r_conv (tol impl : Q) (a : quantity) (u : unit) : string :=
     guard [q_unit a; u] (show_qres E (Q2Qc tol) (Q2Qc impl) (convert_to QcN tbl res keys a u)).
   Definition r_vmconv (tol impl : Q) (a b : quantity) : string :=
